@@ -46,8 +46,8 @@ MODULES = {
         "get_h_ranges", "get_address_ranges_for_area", "ranges_overlap", "range_lists_overlap",
         "get_address_ranges",
         "check_alignment", "check_size"],
-        {"__tuples__": {"PointXYZ": ["x", "y", "z"], "NpuShape3D": ["height", "width", "depth"],
-                        "NpuAddressRange": ["region", "address", "length"]},
+        {"__tuples__": {"PointXYZ": "ethosu/vela/operation.py", "NpuShape3D": "ethosu/vela/api.py",
+                        "NpuAddressRange": "ethosu/vela/api.py"},      # field order is read from the source
          "get_strides": {"records": ["fm"], "record_tuples": {"fm.strides": "NpuShape3D"}},
          "get_address_range": {"records": ["fm", "strides"]},
          "get_h_ranges": {"records": ["fm", "strides"]},
